@@ -15,8 +15,8 @@ class C21(dfir.DfirSpec):
         "closures restricted to a fixed total vocabulary in the correspondence check (theorems hold for all closures)",
         "not modelled (external effects or async completion order): source_file, source_stdin, source_json, "
         "source_interval, dest_sink*, dest_file, resolve_futures*, *_stream_blocking, scan_async_blocking; "
-        "not yet modelled: zip with a 'static side, zip_longest, scan, fold_no_replay/reduce_no_replay, "
-        "cross_singleton, demux_enum, partition (theorem only), join_fused*, lattice_*, state/state_by, defer_signal",
+        "not yet modelled: zip with mixed persistences, fold_no_replay/reduce_no_replay, cross_singleton, demux_enum, "
+        "join_fused*, lattice_*, state/state_by, defer_signal",
     ]
     rule = ("catalogue program (one operator x persistence choice between source_stream sources and for_each sinks) "
             "x random per-tick history (1-6 ticks, 0-8 items per source and tick, key domain 2-9); "
